@@ -122,6 +122,11 @@ pub fn build() -> Vec<TypeOps> {
 	t!(v, "derived"; Vec<SNamed>, Option<EFields>, BTreeMap<u8, SCompact>, [STuple; 2], Box<List>, Vec<EDisc>, Vec<EBoth>, Box<TNewtype>, Box<TNewtypeZ>, Box<TNewtypeS>, [TNewtype; 2], Vec<SSingle>, (SSkip, SEncodedAs), Rc<Tree>, Vec<Tree>);
 	t!(v, "derived"; Box<TCompact>, [TCompact; 3], Arc<TEncAs>, [TEncAs; 2], Box<TSkip>, [TSkip; 2], Box<SCompact>, Option<EDisc>);
 
+	t!(v, "derived", "ptr"; WrapDefault, Vec<WrapDefault>, Box<WrapDefault>, Option<WrapDefault>);
+
+	// --- types that newly gaining a length declaration would be wrong for (probed at compile time)
+	t!(v; Box<Option<u8>>, Range<Compact<u64>>, RangeInclusive<Option<u16>>, [Option<bool>; 2], (Compact<u16>, u8), Box<Compact<u32>>, Arc<Option<u32>>);
+
 	// --- deep nesting
 	t!(v; Result<Vec<Box<(u8, String)>>, Option<Vec<u8>>>, BTreeMap<String, BTreeMap<u8, Vec<Option<Box<String>>>>>, Vec<(Compact<u32>, Option<(bool, Vec<i32>)>)>, Option<Result<Vec<Vec<u16>>, BTreeSet<u8>>>);
 
